@@ -24,7 +24,7 @@ from engine.norm import same_modulo_names
 from .common import resolve_call
 from .pairing_rules import check_coindex, check_scatter, check_retpair, check_tuple_scatter, pairing
 from .c02 import effects_for
-from .sem import expander, ctext, want, xt, cond_want, conds_at, bind, calls, returns, stmt_of, self_attr_value_texts, defs_texts, guarded_values, gather_alternatives
+from .sem import expander, ctext, want, xt, cond_want, conds_at, bind, calls, returns, stmt_of, self_attr_value_texts, defs_texts, guarded_values, gather_alternatives, same_selection
 from engine.guards import cond_text
 from engine import norm as _norm
 
@@ -58,7 +58,7 @@ def check_a(ck, repo):
         bases = {k: {a[1] for a in v} for k, v in alts.items()}
         ck.verdict(bases == {"X": {p_X}, "y": {p_y}, "sample_weight": {p_sw}}, "C08.a", fi, f"{src_of(c)}: sources", "features, targets and weights are taken from the task's X, y, sample_weight", f"the arguments of fit are selected from {bases}, not from ({p_X}, {p_y}, {p_sw})")
         sel = {k: {(a[0], a[2], a[3]) for a in v} for k, v in alts.items()}
-        same = sel["X"] == sel["y"] == sel["sample_weight"] and all(a[2] is not None for v in alts.values() for a in v)
+        same = same_selection([alts["X"], alts["y"], alts["sample_weight"]])
         if same:
             ck.holds("C08.a", fi, c, f"X, y and sample_weight are selected by the same row index on each of the {len(sel['X'])} branch(es)")
         else:
